@@ -1,6 +1,7 @@
 import GoUefi.Driver.Util
 import GoUefi.Driver.Pkcs7
 import GoUefi.Model.Authenticode
+import GoUefi.Spec.Authenticode
 namespace GoUefi.Drv
 open GoUefi
 
@@ -21,6 +22,13 @@ def parsedStr (p : Impl.Parsed) : String :=
 def entriesStr (es : List Spec.PE.CertEntry) : String :=
   "[" ++ ",".intercalate (es.map fun e => s!"({e.length};{e.rev};{e.ctype};{hex (Exec.sha256 e.body)})") ++ "]"
 
+/-- debug/pe reads the whole section table; when it does not fit in the file `NewFile` fails.  The
+    driver answers that case directly, which also keeps an absurd NumberOfSections from making the
+    list-based header walk quadratic. -/
+def sectionTableFits (b : Bytes) : Bool :=
+  let L := le32At b 0x3c
+  decide (L + 24 + le16At b (L + 20) + 40 * le16At b (L + 6) ≤ b.length)
+
 def handlePe (op : String) (args : List String) : Option String :=
   match op, args with
   | "pe.spec", [h] =>
@@ -29,6 +37,7 @@ def handlePe (op : String) (args : List String) : Option String :=
     some s!"wf={wf} pre={if wf then hex (Spec.PE.authInputPadded b) else "-"}"
   | "pe.hash", [h] =>
     let b := unhex h
+    if !sectionTableFits b then some "err" else
     some (match Impl.parse b (Impl.factsOf b) with
       | .ok p => parsedStr p ++ " pre=" ++ hex (Impl.hashStream p)
       | o => o.cls)
@@ -79,14 +88,19 @@ def handlePe (op : String) (args : List String) : Option String :=
           | .ok ws => "ok [" ++ ",".intercalate (ws.map fun w => s!"({w.length};{w.rev};{w.ctype};{hex (Exec.sha256 w.cert)})") ++ "]"
           | o => o.cls)
       | o => "parse-" ++ o.cls)
-  | "pe.verify", h :: certsOk :: rest => do
+  | "pe.verify", h :: badCerts :: rest => do
+    -- badCerts: raw certificate fields that Go's x509.ParseCertificates rejects ("-" = none)
     let (cert, _) ← certOfArgs rest
+    let bad : List Bytes := if badCerts == "-" then [] else (badCerts.splitOn ",").map unhex
+    let certsOk := fun (raw : Bytes) => !bad.contains raw
     let b := unhex h
+    if !sectionTableFits b then pure "model=parse-err spec=false" else
     pure (match Impl.parse b (Impl.factsOf b) with
       | .ok p =>
-        let r := p.verify Exec.crypto (fun _ => certsOk == "1") cert
-        r.cls ++ (match r with | .ok v => " " ++ toString v | _ => "")
-      | o => "parse-" ++ o.cls)
+        let r := p.verify Exec.crypto certsOk cert
+        "model=" ++ r.cls ++ (match r with | .ok v => " " ++ toString v | _ => "") ++
+          s!" spec={Spec.authenticodeVerify Exec.crypto b cert}"
+      | o => "model=parse-" ++ o.cls ++ s!" spec={Spec.authenticodeVerify Exec.crypto b cert}")
   | "spc", [d] => some (hex (Impl.spcIndirectData (unhex d)))
   | _, _ => none
 
